@@ -30,6 +30,8 @@ META = {
 
 META['explanation'] += ' ' + 'R2 is decided per path: every path of a framing unit that returns a frame passes a gate on the declared length. R7: the SSL 2.0 length the gate waits for, tabulated over all header values.'
 
+META['explanation'] += ' ' + 'R9: the fields of a handshake message are parsed inside the payload its header declares (shared with C03.R5).'
+
 REVIEWED_R1 = {
     'cryptoparser/common/parse.py:ParserBinary.parse_parsable_list': 'under `not items`: 0 of at least 2 bytes (CRLF) present; fact re-checked: guard is `not items` and the count is the literal 2',
     'cryptoparser/common/base.py:ArrayBase._update_items_size': 'a size-bound error of the vector type, not a read: payload is the lower bound; fact re-checked: guard compares the prospective size with min_byte_num',
